@@ -297,6 +297,7 @@ func ruleConfinement(c *Ctx, rule string) {
 		"router.(*realm).createMetaSession$1|realm.metaSess": "immutable after construction",
 		"router.(*realm).onLeave|testamentBucket.*":   "the bucket was taken out of realm.testaments and deleted there in the same action (onLeave$1) before the session goroutine reads it: ownership transfer through the sync channel",
 		"router.(*realm).onLeave$2|testament.*":       "as above: elements of the transferred bucket",
+		"router.(*realm).onLeave|testament.*":         "as above (the publishing loop when it sits in onLeave itself)",
 	}
 	nAcc, nField := 0, 0
 	var fkeys []string
